@@ -319,3 +319,119 @@ func runNestedC12(r *vh.Rand, cfg *vh.Config, val protovalidate.Validator, res *
 	}
 	genAST = false
 }
+
+// ---------------------------------------------------------------- the options of a oneof
+
+// memberSem: the declared meaning of an option of a oneof (RulesOneof.member_sem): it may be
+// absent unless required; when set — the default value included — its rules hold
+func memberSem(env EnumEnv, p Prop, fv FValue) bool {
+	if fv.Absent && p.Req {
+		return false
+	}
+	q := p
+	q.Req, q.Opt = false, true
+	return ruleSem(env, q, fv)
+}
+
+func runOneofC12(r *vh.Rand, cfg *vh.Config, val protovalidate.Validator, res *vh.Result, cf *vh.CasesFile, caseNo *int, evals *int) {
+	n := cfg.Scale(40, 600)
+	for u := 0; u < n; u++ {
+		genAST = r.Chance(25)
+		env := theEnum
+		if r.Chance(30) {
+			env = theEnumZ
+		}
+		var props []Prop
+		for i, k := 0, r.Range(2, 4); i < k; i++ {
+			for {
+				gd := genProp(r, propName(r, i), "c12", env)
+				p := gd.P
+				if gd.Class == "" && p.PK == PSingle && !p.Opt && !isPrimary(p) && patternsOK(p) && len(fieldValues(r, p)) > 0 {
+					if !r.Chance(20) {
+						p.Req = false // mostly: a oneof with a required option has one admissible member only
+					}
+					props = append(props, p)
+					break
+				}
+			}
+		}
+		c, src := compileRoot("oneof", env, "", props)
+		input := map[string]any{"j5s": src}
+		if c.err != nil || c.panic != nil {
+			res.Fail(vh.Failure{Case: *caseNo, Stream: "oneof", Sig: "C12 oneof: valid declaration does not compile: " + firstWords(fmt.Sprint(c.err, c.panic), 8),
+				Clause: "for all valid j5s field declarations (the declaration compiles)", Input: input, Got: fmt.Sprint(c.err, c.panic)})
+			*caseNo++
+			continue
+		}
+		md := c.file.Messages().ByName("Foo")
+		if md == nil || md.Fields().Len() != len(props) {
+			res.Fail(vh.Failure{Case: *caseNo, Stream: "oneof", Sig: "C12 oneof: compiled message has another shape", Clause: "the declaration compiles", Input: input, Got: "shape"})
+			*caseNo++
+			continue
+		}
+		var decls, outs, msgs []string
+		for i, p := range props {
+			decls = append(decls, p.Coq())
+			outs = append(outs, foutTerm(md.Fields().Get(i)))
+		}
+		for k := 0; k < 8; k++ {
+			fvs := make([]FValue, len(props))
+			for i := range fvs {
+				fvs[i] = FValue{Absent: true}
+			}
+			if !r.Chance(12) { // one member set (now and then none)
+				i := r.Intn(len(props))
+				var set, good []FValue
+				for _, c := range fieldValues(r, props[i]) {
+					if !c.Absent {
+						set = append(set, c)
+						if memberSem(env, props[i], c) {
+							good = append(good, c)
+						}
+					}
+				}
+				if len(set) == 0 {
+					continue
+				}
+				fvs[i] = vh.Pick(r, set)
+				if len(good) > 0 && r.Chance(60) {
+					fvs[i] = vh.Pick(r, good)
+				}
+			}
+			declared := true
+			var shown, terms []string
+			for i, p := range props {
+				if !memberSem(env, p, fvs[i]) {
+					declared = false
+				}
+				shown = append(shown, fvs[i].String())
+				terms = append(terms, fvs[i].Coq())
+			}
+			vd := validateMessage(val, md, fvs)
+			*evals++
+			res.Count("oneof-message")
+			res.Count("oneof-message-" + vd.String())
+			vt, ok := vd.Coq()
+			in := map[string]any{"j5s": src, "values": shown}
+			switch {
+			case !ok:
+				res.Fail(vh.Failure{Case: *caseNo, Stream: "oneof", Sig: "C12 oneof: the validator fails: " + firstWords(vd.Problem, 8),
+					Clause: "the standard validator evaluates the compiled constraints", Input: in, Got: vd.Problem})
+				continue
+			case vd.Err != "":
+				res.Fail(vh.Failure{Case: *caseNo, Stream: "oneof", Sig: "C12 oneof: validator returns a " + vd.Err + " error on options it can evaluate: " + firstWords(vd.Problem, 8),
+					Clause: "the validator returns a verdict for every message of the compiled type", Input: in, Got: vd.Problem})
+			case declared != vd.Accept:
+				res.Fail(vh.Failure{Case: *caseNo, Stream: "oneof", Sig: "C12 oneof: the validator's verdict differs from the declared rules of the option that is set",
+					Clause: "the validator accepts a value iff it satisfies the declared rules", Input: in,
+					Got:    map[string]any{"validator_accepts": vd.Accept, "violations": vd.Ids}, Want: map[string]any{"declared_rules_satisfied": declared}})
+			}
+			msgs = append(msgs, fmt.Sprintf("([%s], %s, %s)", strings.Join(terms, ";"), vt, specTerm(true, declared)))
+		}
+		cf.Terms = append(cf.Terms, fmt.Sprintf("C12Oneof %s [%s] [%s] [%s]", env.Coq(), strings.Join(decls, ";"), strings.Join(outs, ";"), strings.Join(msgs, ";")))
+		res.Cases = append(res.Cases, vh.CaseRec{Case: *caseNo, Stream: "oneof", Input: input, Impl: map[string]any{"messages": len(msgs)}})
+		res.Count("oneof")
+		*caseNo++
+	}
+	genAST = false
+}
